@@ -703,6 +703,14 @@ pub fn exec_ops(dir: &Path, link: &Path, t0: i64, ops: &[&str], drop_at_end: boo
                 let _ = std::fs::create_dir(dir.join(ustr(&unhex(p[1]))));
                 "r0".to_string()
             }
+            "XL" => {
+                // a symbolic link, named like the given file, to a directory outside the log directory
+                let target = PathBuf::from(format!("{}.lt{}", dir.display(), p[1].len()));
+                let _ = std::fs::create_dir_all(&target);
+                #[cfg(unix)]
+                let _ = std::os::unix::fs::symlink(&target, dir.join(ustr(&unhex(p[1]))));
+                "r0".to_string()
+            }
             "Q" => match &live {
                 None => "r3".to_string(),
                 Some(l) => {
